@@ -34,7 +34,7 @@ package gogen
 //@ readonly
 //@ requires 2 <= tkind && tkind <= 12
 //@ requires imp(cval != nil, cWf(cval) && cKind(cval) >= 3)
-//@ ensures result == (cval != nil && !(IntMin(tkind) <= cRe(cval) && cRe(cval) <= IntMax(tkind)))
+//@ ensures result == (cval != nil && !(cIm(cval) == real(0) && IntMin(tkind) <= cRe(cval) && cRe(cval) <= IntMax(tkind)))
 
 //@ func assignableTo
 //@ prop C05
